@@ -13,11 +13,10 @@ The instruction semantics is a parameter (`StdLike`): the role table of the 21 c
 array / allocation instructions and ANY `exec` for which `set` sets.
 
 Not proved here (listed explicitly):
-* `macros_tokenwise_partial`: proved per macro pass (each pass of the fixed `_apply_macros`
-  replaces exactly the uses `$key`, maximal munch, for every body).  The statement for a whole
-  macro LIST — `substAll reSub macros body = substTokenwise macros body` when no macro value
-  contains `$` and no macro use is directly followed by another `$` — is NOT proved (TODO);
-  `macros_adjacent_counterexample` shows the second condition is necessary;
+* nothing of the statement is left as `…_partial`; `macros_tokenwise` carries the two
+  hypotheses under which it is true (no macro value contains `$`; no macro use is directly
+  followed by another `$`), and `macros_adjacent_counterexample` / the chained-value reading
+  show that neither can be dropped for the code as it is (sequential passes);
 * operand parsing of the text front end (`_parse_operands`) is covered by the differential
   stream only (`parse_text_protosubroutine (render P) = P`).
 -/
@@ -292,14 +291,33 @@ theorem nonvacuous_loop :
 /-! ## macros -/
 
 open NQ.AsmText in
-/-- **`macros_tokenwise_partial`** (one pass; the full statement for a macro list is in the header).
-For every body and every key made of variable-name characters, one pass of the fixed
-`_apply_macros` (`re.sub` with the end-of-name look-ahead) replaces exactly the macro uses
-named `key` — tokens `$name` with maximal munch — and leaves everything else, in particular the
-uses of any other macro whose name merely starts with `key` (F4). -/
-theorem macros_tokenwise_partial (key val : List Char) (hk : ∀ c ∈ key, isIdent c = true) (s : List Char) :
+/-- **One pass.**  For every body and every key made of variable-name characters, one pass of
+the fixed `_apply_macros` (`re.sub` with the end-of-name look-ahead) replaces exactly the macro
+uses named `key` — tokens `$name` with maximal munch — and leaves everything else, in
+particular the uses of any other macro whose name merely starts with `key` (F4). -/
+theorem macro_pass_tokenwise (key val : List Char) (hk : ∀ c ∈ key, isIdent c = true) (s : List Char) :
     reSub key val s = (tokenize s).flatMap (render1 key val) :=
   reSub_tokenwise key val hk s
+
+open NQ.AsmText in
+/-- **`macros_tokenwise`.**  For every macro list (keys are variable names, as `_parse_preamble`
+enforces) and every body: the sequential substitution of `_apply_macros` equals the
+simultaneous token-wise replacement (every use `$name` becomes the value of the macro called
+`name`, everything else is kept), provided no macro value contains `$` and no macro use in the
+body is directly followed by another `$`. -/
+theorem macros_tokenwise (macros : List (List Char × List Char))
+    (hk : ∀ kv ∈ macros, ∀ c ∈ kv.1, isIdent c = true)
+    (hv : ∀ kv ∈ macros, ∀ c ∈ stripBraces kv.2, c ≠ '$')
+    (body : List Char) (hs : NoAdjacentUses (tokenize body)) :
+    substAll reSub macros body = substTokenwise macros body :=
+  substAll_tokenwise macros hk hv body (canon_tokenize body hs)
+
+open NQ.AsmText in
+/-- non-vacuity of `macros_tokenwise`: the F4 text satisfies its hypotheses -/
+example : NoAdjacentUses (tokenize ['s', 'e', 't', ' ', '$', 'a', '1', ' ', '$', 'a']) := by
+  have e : tokenize ['s', 'e', 't', ' ', '$', 'a', '1', ' ', '$', 'a'] =
+      [.text 's', .text 'e', .text 't', .text ' ', .use ['a', '1'], .text ' ', .use ['a']] := by decide
+  rw [e]; simp [NoAdjacentUses]
 
 open NQ.AsmText in
 /-- F4 on the code before the fix: `DEFINE a R0`, `DEFINE a1 R5`, `set $a1 3` became `set R01 3`
